@@ -62,7 +62,8 @@ class U:
     def vec(self, name, n, kind="real", region="FRESH"):
         sort = {"real": z3.RealSort(), "int": z3.IntSort(), "bool": z3.BoolSort()}[kind]
         A = z3.Array(self.path.fresh_name(name), z3.IntSort(), sort)
-        v = Vec(n, lambda i: z3.Select(A, i if not isinstance(i, int) else z3.IntVal(i)), kind, arr=A, name=name)
+        path = self.path
+        v = Vec(n, lambda i: z3.Select(A, path.auto_index(i, n)), kind, arr=A, name=name)
         a = Arr.new(v, region=region)
         return a
 
